@@ -281,7 +281,7 @@ API_LINES = [("gfa1", "S\tA\tACGT\tLN:i:4\txx:Z:a b"), ("gfa1", "L\tA\t+\tB\t-\t
              ("gfa2", "U\tu\ta b"), ("gfa2", "X\tcustom\t1\txx:i:1")]
 API_FIELDS = ["name", "sequence", "xx", "LN", "zz", "VN", "TS", "ID", "overlap", "from_segment", "segment_names", "items",
               "sid1", "beg1", "alignment", "var", "field1", "record_type", "content", "", "x", "xxx", "1x", "x_", "na me",
-              NONASCII, "\t", "validate", "_data", "__class__", "version"]
+              NONASCII, "\t", "a" * 300]
 API_VALUES = ["1", "abc", "", "*", "a\tb", "a\nb", NONASCII, "1_0", "+", "A+,B+", "2M", "[1]", "{", "5$", "$"]
 API_DTYPES = ["i", "Z", "J", "H", "B", "f", "A", "q", "", "ii", "position_gfa2", "generic"]
 
@@ -293,15 +293,17 @@ def _chars(s):
     return list(s)
 
 
-def build_catalog(tier, layers):
+def build_catalog(tier, layers, shorter=0):
+    """shorter: subtract from every enumeration bound (C07 quick re-uses the C04 enumeration one symbol shorter)"""
     q = tier == "quick"
     ctx = [dict(name=c["name"], ver=c["ver"], dt=c["dt"], fields=[_chars(f) for f in c["fields"]], hole=c["hole"],
                 fpre=_chars(c["fpre"])) for c in CONTEXTS]
     alph = []
     for name, syms, nq, nt, pre, suf in ALPHABETS:
-        n = nq if q else nt
+        n = (nq if q else nt)
         if n <= 0:
             continue
+        n = max(1, n - shorter)
         alph.append(dict(ctx=CTX_IDX[name], pre=_chars(pre), suf=_chars(suf), syms=[_chars(s) for s in _syms(syms)], n=n))
     cat = [dict(ctx=CTX_IDX[name], s=_chars(s)) for name, ss in CATALOGUE.items() for s in ss]
     reps = _syms(REPS_QUICK if q else REPS_THOROUGH)
@@ -334,10 +336,14 @@ def build_catalog(tier, layers):
 MC_CFG = "SPECIFICATION Spec\nCONSTRAINT Emit\nCHECK_DEADLOCK FALSE\n"
 
 
-def generate(tier, layers, name):
+CF_RE = None
+
+
+def generate(tier, layers, name, shorter=0):
     """Run MC_Lex; returns (cases, tlc stats, verdict histogram). A case is a dict with kind f/l/d/t."""
+    import re
     wd = tlc.workdir(name)
-    data = build_catalog(tier, layers)
+    data = build_catalog(tier, layers, shorter)
     cf = os.path.join(wd, "lexcat.json")
     with open(cf, "w") as f:
         json.dump(data, f)
@@ -350,9 +356,16 @@ def generate(tier, layers, name):
     seen, cases = set(), []
     hist = {}
     printed = 0
-    for head in ("CF", "CL", "CD", "CT"):
-        for raw in tlc.parse_tuples(out, head):
-            v = tlc.tla_value(raw)
+    # the bulk (field cases) has a fixed flat shape: parse it with one regular expression
+    cf = re.compile(r'<<\s*"CF",\s*(\d+),\s*<<([\d,\s]*)>>,\s*"(\w+)"\s*>>')
+    flat = [["CF", int(m.group(1)), [int(x) for x in m.group(2).replace(",", " ").split()], m.group(3)]
+            for m in cf.finditer(out)]
+    rest = cf.sub("", out)
+    parsed = [("CF", v) for v in flat]
+    for head in ("CL", "CD", "CT"):
+        parsed += [(head, tlc.tla_value(raw)) for raw in tlc.parse_tuples(rest, head)]
+    for head, v in parsed:
+        if True:
             printed += 1
             if head == "CF":
                 c = dict(kind="f", ctx=v[1], ver=CONTEXTS[v[1] - 1]["ver"], dia="standard", s=dec(v[2]), lines=[], mc=v[3])
@@ -405,6 +418,7 @@ class Runner:
         self.gfapy = _load_gfapy()
         signal.signal(signal.SIGALRM, _alarm)
         self.notes = []     # (exception type, call site) of foreign results of the current case
+        self.all_dialects = os.environ.get("VERIF_TIER", "quick") != "quick"
         d = os.path.join(FILES, str(os.getpid()))
         os.makedirs(d, exist_ok=True)
         self.path = os.path.join(d, "case.gfa")
@@ -428,6 +442,12 @@ class Runner:
         finally:
             signal.setitimer(signal.ITIMER_REAL, 0)
 
+    def has_field(self, ln, fname):
+        try:
+            return fname in ln.positional_fieldnames or fname in ln.tagnames
+        except Exception:
+            return False
+
     def written(self, obj):
         st, s = self.call(str, obj)
         if st == "ok" and "# INVALID" in s:
@@ -444,7 +464,7 @@ class Runner:
             return [cons, "na", "na", "na"]
         val, _ = self.call(ln.validate)
         vf = "na"
-        if fname:
+        if fname and self.has_field(ln, fname):   # the field under test exists under that name on this line
             vf, _ = self.call(ln.validate_field, fname)
         return [cons, val, vf, self.written(ln)]
 
@@ -489,6 +509,8 @@ class Runner:
                         r.append(self.call(g.validate)[0])
                         r.append(self.written(g))
                     rows.append(r); lv.append(k); cfg.append("Gfa/%s/%s" % (ver, dia))
+                    if dia == "rgfa" and not self.all_dialects:
+                        continue
                     st, g = self.call(G.Gfa, vlevel=k, version=ver, dialect=dia)
                     r = [st]
                     if st == "ok":
@@ -795,7 +817,7 @@ def _coverage(out, tier, cases, st, hist, nstates, t_gen, t_run, t_val, layers):
 
 def _run(out, tier, prop, layers, levels, extra=()):
     t0 = time.time()
-    cases, st, hist = generate(tier, layers, "lex-%s-mc" % prop)
+    cases, st, hist = generate(tier, layers, "lex-%s-mc" % prop, shorter=1 if (prop == "C07" and tier == "quick") else 0)
     cases = cases + list(extra(len(cases) + 1)) if extra else cases
     t1 = time.time()
     run_cases(cases, levels)
